@@ -1071,6 +1071,15 @@ _ENC_FRESH_A = c16events.refcodec.enc_table(_FRESH_A)
 _ENC_FRESH_B = c16events.refcodec.enc_table(_FRESH_B)
 
 
+def _fill_names():
+    """Whatever the library remembers about names is full before the
+    threads start (a bounded cache evicts from the first new name on)."""
+    reset_switch()
+    p = lib.pamqp()
+    p.decode.field_table(_ENC_FRESH_A)
+    p.encode.field_table(_FRESH_B)
+
+
 def _digest(value):
     import hashlib
     return hashlib.sha256(c16events.c(value).encode()).hexdigest()
@@ -1092,6 +1101,49 @@ HARNESSES += [
             lambda: p.encode.field_table(_FRESH_B).hex()[-64:]))], None, 1,
      {'cold': False}),
 ]
+# ... and the same with a scheduling point after every call INSIDE a line
+# (a check-then-act that fits in one source line)
+N_FINE = 40         # names per thread where every call is a point
+_FINE_A, _FINE_B = _fresh_table('fa', N_FINE), _fresh_table('fb', N_FINE)
+_ENC_FINE_A = c16events.refcodec.enc_table(_FINE_A)
+_ENC_FINE_B = c16events.refcodec.enc_table(_FINE_B)
+HARNESSES += [
+    ('[points inside lines] decode %d names || decode %d other names (on '
+     'top of the %d of the harnesses above)' % (N_FINE, N_FINE, 2 * N_FRESH), [
+         _call('decode.field_table(fine A)', lambda p: _try(
+             lambda: _digest(p.decode.field_table(_ENC_FINE_A)))),
+         _call('decode.field_table(fine B)', lambda p: _try(
+             lambda: _digest(p.decode.field_table(_ENC_FINE_B))))], 1, 1,
+     {'cold': False, 'fine': True, 'setup': lambda: _fill_names()}),
+    ('[points inside lines] encode %d names || encode %d other names' % (
+        N_FINE, N_FINE), [
+         _call('encode.field_table(fine A)', lambda p: _try(
+             lambda: p.encode.field_table(_FINE_A).hex()[-64:])),
+         _call('encode.field_table(fine B)', lambda p: _try(
+             lambda: p.encode.field_table(_FINE_B).hex()[-64:]))], 1, 1,
+     {'cold': False, 'fine': True, 'setup': lambda: _fill_names()}),
+    ('[points inside lines] decode %d never-seen names || decode %d other '
+     'never-seen names' % (N_FRESH, N_FRESH), [
+         _call('decode.field_table(fresh A)', lambda p: _try(
+             lambda: _digest(p.decode.field_table(_ENC_FRESH_A)))),
+         _call('decode.field_table(fresh B)', lambda p: _try(
+             lambda: _digest(p.decode.field_table(_ENC_FRESH_B))))], None, 1,
+     {'cold': False, 'fine': True}),
+    ('[points inside lines] method decode || method decode', [
+        _call('unmarshal Basic.Ack', lambda p: _view(p.frame.unmarshal(ACK))),
+        _call('unmarshal Queue.Declare', lambda p: _view(p.frame.unmarshal(
+            c16events.BUF_QD)))], 1, 2, {'fine': True}),
+    ('[points inside lines] method encode || header encode', [
+        _call('marshal Queue.Declare', lambda p: p.frame.marshal(
+            p.commands.Queue.Declare(queue='q', arguments={'a': [1, 'x']}),
+            3).hex()),
+        _call('marshal ContentHeader', lambda p: p.frame.marshal(
+            p.header.ContentHeader(0, 9, p.commands.Basic.Properties(
+                app_id='a', headers={'k': 40000})), 2).hex())], 1, 2,
+     {'fine': True}),
+]
+
+
 def _nested(depth, leaf):
     v = leaf
     for i in range(depth):
@@ -1278,7 +1330,8 @@ def explore_schedules(ctx, h, shard, bound, cold=False):
         finally:
             h_teardown()
     runner = sched.Runner(bodies, setup=cold_start if cold else h_setup,
-                          teardown=teardown_with_probe)
+                          teardown=teardown_with_probe,
+                          fine=bool(opts.get('fine')))
     if not cold:
         # warm library: let caches settle (first / second sighting) so that
         # every execution of the exploration starts from the same state
